@@ -246,6 +246,10 @@ func runC04(env *core.Env) {
 	stdEnv := gen.StdEnv() // shared environment objects
 	eo := append(gen.EnvOpts(stdEnv), evalopts.OverrideTime(c04Fixed))
 	eo = append(eo, c04BigVars()...)
+	eo = append(make([]fhirpath.EvaluateOption, 0, len(eo)+16), eo...) // spare capacity: an append by the callee would write into this shared array
+	eoLen := len(eo)
+	eoSnapshot := append([]fhirpath.EvaluateOption{}, eo[:cap(eo)]...)
+	_ = eoLen
 	co := []fhirpath.CompileOption{compopts.WithExperimentalFuncs(), compopts.AddFunction("nap", nap)}
 	digest0 := tableDigest()
 	env.Cover("table-digest")
@@ -275,6 +279,12 @@ func runC04(env *core.Env) {
 	}
 	checkPristine := func(phase string) {
 		env.Cover("inputs-compared-with-pristine-copies")
+		for i, o := range eo[:cap(eo)] {
+			if (o == nil) != (eoSnapshot[i] == nil) {
+				env.Violatef("C04/shared-input-modified/option-slice", "after %s slot %d of the caller's option slice (beyond its length) was written to", phase, i)
+				break
+			}
+		}
 		if why := c04SpareIntact(); why != "" {
 			env.Violatef("C04/shared-input-modified/collection-backing-array", "after %s the collection bound to %%spare (3 items, capacity 8) was written to: %s", phase, why)
 		}
